@@ -225,10 +225,10 @@ class World:
                 except terrors.FileExists:
                     pass
                 self._clear_store_dir(t, "srv/pub")
-                self.store.load({p: v for p, v in snap.items() if p != SERVED})
+                self.store.load({p: v for p, v in snap.items() if p not in (SERVED, "/")})
             else:
                 self._clear_store_dir(t, "")
-                self.store.load(snap)
+                self.store.load({p: v for p, v in snap.items() if p != "/"})
             return
 
     def _write_local(self, snap, only_inside):
@@ -272,6 +272,11 @@ class World:
         from dromedary import urlutils
         t = self.store.raw()
         out = {}
+        try:
+            # the root directory itself is an entry of the memory store ("rmdir /" removes it)
+            out["/"] = None if _stat.S_ISDIR(t.stat(".").st_mode) else b"<root is not a directory>"
+        except terrors.TransportError:
+            pass
         stack = [""]
         while stack:
             d = stack.pop()
